@@ -390,8 +390,30 @@ func (m *Model) renderTmpl(w *strings.Builder, t *Tmpl, env *Env, chain map[stri
 		if !ok {
 			return &rmErr{"notfound", pname}
 		}
+		// the output is the parent's: text, comments, print tags, conditionals and loops outside
+		// blocks contribute nothing (as long as they hold no block definitions themselves)
+		var holdsBlock func(b []*S) bool
+		holdsBlock = func(b []*S) bool {
+			for _, s := range b {
+				if s.K == "block" || holdsBlock(s.Body) || holdsBlock(s.Else) {
+					return true
+				}
+				for _, bb := range s.Bodies {
+					if holdsBlock(bb) {
+						return true
+					}
+				}
+			}
+			return false
+		}
 		for _, s := range t.Body {
-			if s.K != "block" && s.K != "text" && s.K != "comment" {
+			switch s.K {
+			case "block", "text", "comment":
+			case "print", "if", "for":
+				if holdsBlock([]*S{s}) {
+					return domain("block definitions inside conditionals or loops of a child are not modelled")
+				}
+			default:
 				return domain("child templates with statements outside blocks are not modelled")
 			}
 		}
